@@ -105,8 +105,12 @@ func runSeq(c Case) (res Result) {
 	defer func() {
 		if im != nil && res.Panic == "" {
 			im.Close()
-		} else if im != nil && im.cancel != nil {
-			im.cancel()
+		} else if im != nil {
+			// after a panic s.mu may be held: no Stop(), but the saver is told to leave and the files go
+			if im.cancel != nil {
+				im.cancel()
+			}
+			os.RemoveAll(im.dir)
 		}
 	}()
 	p := common.Safely(func() {
@@ -205,8 +209,11 @@ func runRace(t *testing.T, c Case, emit func(Result)) (res Result) {
 			if p != nil {
 				res.Panic = fmt.Sprint(p)
 				emit(res)
-				if im != nil && im.cancel != nil {
-					im.cancel()
+				if im != nil {
+					if im.cancel != nil {
+						im.cancel()
+					}
+					os.RemoveAll(im.dir)
 				}
 				return
 			}
